@@ -49,6 +49,13 @@ func (w *World) locOf(addr ssa.Value) (owner string, path string, root ssa.Value
 		return "", "", nil, false
 	}
 	if g, isG := root.(*ssa.Global); isG {
+		// a package-level variable of a named struct type is reached through its methods'
+		// receivers as well: name the location by the type, so both views agree
+		if n, isN := deref(g.Type()).(*types.Named); isN && n.Obj().Pkg() != nil && n.Obj().Pkg().Path() == twigPath {
+			if _, isSt := n.Underlying().(*types.Struct); isSt {
+				return n.Obj().Name(), path, root, true
+			}
+		}
 		return g.Name(), path, root, true
 	}
 	t := deref(root.Type())
